@@ -426,9 +426,12 @@ pub trait QueryBuilder:
                             Some(Token::Unquoted(tok)) if numbered => {
                                 if let Ok(num) = tok.parse::<usize>() {
                                     self.prepare_simple_expr(&values[num - 1], sql);
+                                    tokenizer.next();
+                                } else {
+                                    write!(sql, "{mark}").unwrap();
                                 }
-                                tokenizer.next();
                             }
+                            _ if numbered => write!(sql, "{mark}").unwrap(),
                             _ => {
                                 self.prepare_simple_expr(&values[count], sql);
                                 count += 1;
